@@ -79,3 +79,10 @@ claim('C16', 'proof',
       'outside any monitor (`next`, `done`/`skip` status test) and on the unlocked get-or-create of the named study; contracts cannot enumerate schedules, so '
       'these parts are covered only by the bounded stress driver (sampled schedules) and are NOT decided. Trusted: engine, threading.Lock mutual exclusion.',
       'contract-based deductive verification (pyvc: guarded-by + monitor-invariant obligations) + bounded stress sampling', 'DESIGN.md 5/C16')
+claim('C14', 'proof',
+      'Selectors: `compute_num_output` returns the documented count (n, ceil(n*len) within [0, len], or len); `First`/`Last` return exactly the first/last '
+      'min(count, len) members in order; `Top`/`Bottom` (non-cluster) return min(count, len) members, all drawn from the input; the input population is left '
+      'untouched -- for populations of any size. Mutators, recombinators, NSGA2/NEAT and the composition algebra are covered by the bounded tier '
+      '(spec.validate + alignment of every child, inputs unchanged, seeded determinism).',
+      'Trusted: engine; sorted(key=...) is axiomatised as a rearrangement (membership + length), the order by key is not modelled.',
+      'contract-based deductive verification (pyvc) + bounded stand-in for mutators/recombinators/composition', 'DESIGN.md 5/C14')
